@@ -3,7 +3,7 @@
 # run the checks named in its meta.json against that tree (quick tier), expect exit 1; remove the worktree.
 cd /verif || exit 2
 IDS="$*"; [ -z "$IDS" ] && IDS=$(ls seeded)
-WT=/tmp/wt-regress
+WT=/tmp/wt-regress-$$
 for id in $IDS; do
   git -C /repo worktree remove --force $WT 2>/dev/null
   git -C /repo worktree add -q --detach $WT HEAD || exit 2
